@@ -204,7 +204,7 @@ class Parser:
         return lhs
 
     def unary(self):
-        if self.at("op", "*") or self.at("op", "!") or self.at("op", "++") or self.at("op", "--") or self.at("op", "-"):
+        if self.at("op", "*") or self.at("op", "!") or self.at("op", "++") or self.at("op", "--") or self.at("op", "-") or self.at("op", "&"):
             op = self.eat()
             return ("un", op, self.unary())
         if self.at("op", "(") and self.peek(1)[0] == "id" and self.peek(1)[1] in TYPE_WORDS:      # cast
@@ -301,16 +301,18 @@ class Parser:
                 init = self.decl_or_expr()
             else:
                 self.eat()
+            cnd = None
             if not self.at("op", ";"):
-                raise Refuse(f"{self.fn}: a for loop with a condition")
-            self.eat()
+                cnd = self.expr()
+            self.eat("op", ";")
+            inc = None
             if not self.at("op", ")"):
-                raise Refuse(f"{self.fn}: a for loop with an increment")
-            self.eat()
-            if init is not None and not (init[0] == "decl" and init[3] is None):
-                raise Refuse(f"{self.fn}: a for loop with an initialiser")
+                inc = self.expr()
+            self.eat("op", ")")
             body = self.block_or_stmt()
-            return ("loop", ([init] if init else []) + body)
+            if cnd is None and inc is None and (init is None or (init[0] == "decl" and init[3] is None)):
+                return ("loop", ([init] if init else []) + body)
+            return ("for", init, cnd, inc, body)          # only the dedicated interpreters know some of these
         if self.at("id", "while"):
             self.eat()
             self.eat("op", "(")
@@ -349,7 +351,16 @@ class Parser:
             k = self.eat()
             self.eat("op", ";")
             return (k,)
-        if self.at("id") and self.peek()[1] in ("goto", "do", "try", "throw", "delete", "new"):
+        if self.at("id", "goto"):
+            self.eat()
+            l = self.eat("id")
+            self.eat("op", ";")
+            return ("goto", l)
+        if self.at("id") and self.at("op", ":", 1) and self.peek()[1] not in ("case", "default", "public", "private"):
+            l = self.eat("id")
+            self.eat("op", ":")
+            return ("label", l)
+        if self.at("id") and self.peek()[1] in ("do", "try", "throw", "delete", "new"):
             raise Refuse(f"{self.fn}: '{self.peek()[1]}'")
         return self.decl_or_expr()
 
@@ -369,10 +380,35 @@ class Parser:
             if self.at("op", "="):
                 self.eat()
                 init = self.assign()
+            elif self.at("op", "(") and dim is None:
+                self.eat()
+                args = []
+                if not self.at("op", ")"):
+                    args.append(self.assign())
+                    while self.at("op", ","):
+                        self.eat()
+                        args.append(self.assign())
+                self.eat("op", ")")
+                init = ("ctor", args)
+            first = ("decl", ty, name, init, dim)
             if self.at("op", ","):
-                raise Refuse(f"{self.fn}: several declarators in one declaration")
+                ds = [first]
+                base = [x for x in ty if x not in ("*", "&")]
+                while self.at("op", ","):
+                    self.eat()
+                    t2 = list(base)
+                    while self.at("op", "*") or self.at("op", "&"):
+                        t2.append(self.eat())
+                    n2 = self.eat("id")
+                    i2 = None
+                    if self.at("op", "="):
+                        self.eat()
+                        i2 = self.assign()
+                    ds.append(("decl", t2, n2, i2, None))
+                self.eat("op", ";")
+                return ("decls", ds)
             self.eat("op", ";")
-            return ("decl", ty, name, init, dim)
+            return first
         e = self.expr()
         self.eat("op", ";")
         return ("expr", e)
@@ -1302,6 +1338,163 @@ def escape_body(src):
     return ex(stmts[1:], {"esc": None, "str": None, "out": []})
 
 
+def unescape_body(src):
+    """Xml::Private::unescapeString.  Source pointers are SUFFIXES of the string (`*src` = first byte, the terminator 0 behind
+    the last one: `hd`; `++src` = drop 1; `String::find(src, c)` = idxOf on the suffix; `p + k` behind a find = drop); the
+    String holds no NUL byte (texts are cut at the first NUL).  `*(dest++) = x` / Memory::copy + advance append to the
+    output.  `str.scanf("#%u", &v) != 1` = `scanfHashU str = none` (CSem: '#' then the decimal reader `scanU` of the model),
+    `Unicode::toString(v)` = the model's `utf8 v`, the loop `for(String* j = escapeStrings, * end = escapeStrings + N; j < end;
+    ++j) if(str == *j) { …; goto L; }` = a first-match search in the generated table.  Returns (entry term, body term)."""
+    st = parse_body(function_body(src, r"String\s+Xml::Private::unescapeString\(const String&\s*str\)", "unescapeString"), "unescapeString")
+    I = lambda n: ("id", n)
+    SZ = ("call", I("sizeof"), [I("char")])
+    want_head = [
+        ("decl", ["const", "char", "*"], "srcStart", I("str"), None),
+        None,
+        ("if", ("un", "!", I("src")), [("return", I("str"))], []),
+        ("decl", ["String"], "result", ("ctor", [("call", ("mem", I("str"), "length"), [])]), None),
+        ("decl", ["char", "*"], "destStart", I("result"), None),
+        ("decl", ["usize"], "startLen", ("bin", "-", I("src"), I("srcStart")), None),
+        ("expr", ("call", I("Memory::copy"), [I("destStart"), I("srcStart"), ("bin", "*", I("startLen"), SZ)])),
+        ("decl", ["char", "*"], "dest", ("bin", "+", I("destStart"), I("startLen")), None)]
+    if len(st) != 11 or any(w is not None and w != x for w, x in zip(want_head, st)):
+        raise Refuse("unescapeString: the statements in front of the loop are not the known prologue (find the first '&', "
+                     "return str if there is none, copy the bytes in front of it)")
+    d1 = st[1]
+    if d1[0] != "decl" or d1[2] != "src" or d1[3][0] != "call" or d1[3][1] != I("String::find") or d1[3][2][0] != I("srcStart") \
+            or d1[3][2][1][0] != "chr":
+        raise Refuse("unescapeString: `const char* src = String::find(srcStart, '&');` not found")
+    amp = d1[3][2][1][1]
+    lp = st[8]
+    if lp[0] != "for" or lp[1] != ("decl", ["const", "char", "*"], "srcEnd", ("bin", "+", I("srcStart"), ("call", ("mem", I("str"), "length"), [])), None) \
+            or lp[2] != ("bin", "<", I("src"), I("srcEnd")) or lp[3] is not None:
+        raise Refuse("unescapeString: loop header other than `for(const char* srcEnd = srcStart + str.length(); src < srcEnd;)`")
+    if st[9] != ("expr", ("call", ("mem", I("result"), "resize"), [("bin", "-", I("dest"), I("destStart"))])) or st[10] != ("return", I("result")):
+        raise Refuse("unescapeString: statements behind the loop other than `result.resize(dest - destStart); return result;`")
+    c = Compiler("unescapeString")
+    DEREF = ("un", "*", I("src"))
+    DESTPP = ("un", "*", ("post", "++", I("dest")))
+
+    def pure(e, S):
+        def sub(x):
+            if x == DEREF:
+                return I("h__")
+            if isinstance(x, tuple):
+                if x == I("src"):
+                    raise Refuse("unescapeString: the pointer src itself in a condition")
+                return tuple(sub(y) if isinstance(y, tuple) else y for y in x)
+            return x
+        out = []
+        v = c.as_bool(c.ev(sub(e), Env({"h__": ("char", f"hd {S['src']}")}, {}, set()), out))
+        if out:
+            raise Refuse("unescapeString: a condition reads memory other than *src")
+        return v
+
+    def result(S):
+        return f"({' ++ '.join(S['out']) if S['out'] else '[]'}, {S['src']})"
+
+    def ux(stmts, S, conts):
+        if not stmts:
+            return ux(conts[0], S, conts[1:]) if conts else result(S)
+        s0, rest = stmts[0], stmts[1:]
+        k = s0[0]
+        nxt = lambda S2: ux(rest, S2, conts)
+        if k == "block":
+            return ux(s0[1], S, [rest] + conts)
+        if k == "label":
+            return nxt(S)
+        if k == "continue":
+            return result(S)
+        if k == "goto":
+            lists = [rest] + conts
+            for n, l in enumerate(lists):
+                if ("label", s0[1]) in l:
+                    return ux(l[l.index(("label", s0[1])) + 1:], S, lists[n + 1:])
+            raise Refuse(f"unescapeString: goto to a label that is not ahead ('{s0[1]}')")
+        if k == "if":
+            _, cnd, th, el = s0
+            T = lambda S2: ux(th, S2, [rest] + conts)
+            E = lambda S2: ux(el, S2, [rest] + conts)
+            neg = False
+            while cnd[0] == "un" and cnd[1] == "!":
+                cnd, neg = cnd[2], not neg
+            if cnd == I("sequenceEnd"):
+                if not S["seq"] or S["seq"][0] != "unknown":
+                    raise Refuse("unescapeString: null test of sequenceEnd where it is not fresh")
+                _, base, ch = S["seq"]
+                some = dict(S, seq=("at", base, "k"), out=list(S["out"]))
+                none = dict(S, seq=None, out=list(S["out"]))
+                a, b = (E, T) if neg else (T, E)
+                return f"(match idxOf (· == {ch}) {base} with\n  | none => {b(none)}\n  | some k => {a(some)})"
+            if cnd[0] == "bin" and cnd[1] in ("!=", "==") and cnd[3] == ("num", 1) and cnd[2][0] == "call" and \
+                    cnd[2][1] == ("mem", I("str"), "scanf") and len(cnd[2][2]) == 2 and cnd[2][2][0] == ("str", [35, 37, 117]) and \
+                    cnd[2][2][1][0] == "un" and cnd[2][2][1][1] == "&" and cnd[2][2][1][2][0] == "id" and S["str"]:
+                uv = cnd[2][2][1][2][1]
+                fail_first = (cnd[1] == "!=") != neg
+                ok = dict(S, uv=(uv, "v"), out=list(S["out"]))
+                a, b = (E, T) if fail_first else (T, E)
+                return f"(match scanfHashU {S['str']} with\n  | none => {b(dict(S, out=list(S['out'])))}\n  | some v => {a(ok)})"
+            t = pure(cnd, S)
+            if neg:
+                t = f"!({t})"
+            return f"(if {t} then {T(dict(S, out=list(S['out'])))}\n   else {E(dict(S, out=list(S['out'])))})"
+        if k == "decl":
+            _, ty, name, init, dim = s0
+            if name == "sequenceEnd" and init and init[0] == "call" and init[1] == I("String::find") and init[2][0] == I("src") and \
+                    init[2][1][0] == "chr" and init[2][1][1] != 0:
+                return nxt(dict(S, seq=("unknown", S["src"], init[2][1][1])))
+            if name == "str" and ty == ["String"] and init is None:
+                return nxt(dict(S, strdecl=True))
+            if init is None and ty in (["uint"], ["unsigned"], ["unsigned", "int"]):
+                return nxt(S)
+            if ty == ["String"] and init == ("call", I("Unicode::toString"), [I(S["uv"][0])] if S["uv"] else None):
+                return nxt(dict(S, val=(name, f"utf8 {S['uv'][1]}")))
+            raise Refuse(f"unescapeString: declaration of '{name}'")
+        if k == "for":
+            _, init, cnd, inc, body = s0
+            N = ("bin", "/", ("call", I("sizeof"), [I("escapeStrings")]), ("call", I("sizeof"), [("un", "*", I("escapeStrings"))]))
+            ok = init == ("decls", [("decl", ["String", "*"], "j", I("escapeStrings"), None),
+                                    ("decl", ["String", "*"], "end", ("bin", "+", I("escapeStrings"), N), None)]) and \
+                cnd == ("bin", "<", I("j"), I("end")) and inc in (("un", "++", I("j")), ("post", "++", I("j"))) and \
+                len(body) == 1 and body[0][0] == "if" and body[0][1] in (("bin", "==", I("str"), ("un", "*", I("j"))),
+                                                                          ("bin", "==", ("un", "*", I("j")), I("str"))) and \
+                not body[0][3] and body[0][2] and body[0][2][-1][0] in ("goto", "continue") and S["str"]
+            if not ok:
+                raise Refuse("unescapeString: a for loop other than the search of str in escapeStrings that leaves by goto / continue")
+            hit = ux(body[0][2], dict(S, j="j", out=list(S["out"])), [rest] + conts)
+            miss = ux(rest, dict(S, out=list(S["out"])), conts)
+            return f"(match Generated.escapeStrings.findIdx? (· == {S['str']}) with\n  | some j => {hit}\n  | none => {miss})"
+        if k == "expr":
+            e = s0[1]
+            if e[0] == "asg" and e[1] == "=" and e[2] == DESTPP:
+                r = e[3]
+                if r == ("un", "*", ("post", "++", I("src"))):
+                    return nxt(dict(S, out=S["out"] + [f"[hd {S['src']}]"], src=f"({S['src']}.drop 1)"))
+                if r[0] == "chr":
+                    return nxt(dict(S, out=S["out"] + [f"[{r[1]}]"]))
+                if r == ("idx", I("escapeChars"), ("bin", "-", I("j"), I("escapeStrings"))) and S.get("j"):
+                    return nxt(dict(S, out=S["out"] + ["[Generated.escapeChars.getD j 0]"]))
+                raise Refuse("unescapeString: a byte the translator does not know is written")
+            if e in (("un", "++", I("src")), ("post", "++", I("src"))):
+                return nxt(dict(S, src=f"({S['src']}.drop 1)"))
+            if e == ("call", ("mem", I("str"), "attach"), [I("src"), ("bin", "-", I("sequenceEnd"), I("src"))]) and S.get("strdecl") \
+                    and S["seq"] and S["seq"][0] == "at" and S["seq"][1] == S["src"]:
+                return nxt(dict(S, str=f"({S['src']}.take k)"))
+            if e == ("asg", "=", I("src"), ("bin", "+", I("sequenceEnd"), ("num", 1))) and S["seq"] and S["seq"][0] == "at":
+                return nxt(dict(S, src=f"({S['seq'][1]}.drop (k + 1))"))
+            if S["val"] and rest:
+                vn = S["val"][0]
+                ln = ("call", ("mem", I(vn), "length"), [])
+                if e == ("call", I("Memory::copy"), [I("dest"), ("cast", ["const", "char", "*"], I(vn)), ("bin", "*", ln, SZ)]) and \
+                        rest[0] == ("expr", ("asg", "+=", I("dest"), ln)):
+                    return ux(rest[1:], dict(S, out=S["out"] + [f"({S['val'][1]})"]), conts)
+            raise Refuse("unescapeString: a statement of the loop body the translator does not know")
+        raise Refuse(f"unescapeString: statement '{k}' in the loop body")
+    body = ux(lp[4], {"src": "r", "out": [], "seq": None, "str": None, "strdecl": False, "uv": None, "val": None, "j": None}, [])
+    entry = f"match idxOf (· == {amp}) s with\n  | none => none\n  | some k => some (s.take k, s.drop k)"
+    return entry, body
+
+
 def run(repo):
     repo = Path(repo)
     try:
@@ -1334,6 +1527,12 @@ def run(repo):
         parts.append("/-- escapeString: the bytes ONE run of the loop body appends to the output for the input byte c (the loop runs over\n"
                      "    every byte of the string in order: `for(const char* i = str, * end = i + str.length(); i < end; ++i)`) -/\n"
                      f"def escapeString_body (attr : Bool) (c : UInt8) : Bytes :=\n  {escape_body(srcc)}\n")
+        uentry, ubody = unescape_body(srcc)
+        parts.append("/-! ### `Xml::Private::unescapeString` -/\n\n"
+                     "/-- the statements in front of the loop: `none` = `return str` (no `&`), else (bytes copied, rest of the source) -/\n"
+                     f"def unescapeString_entry (s : Bytes) : Option (Bytes × Bytes) :=\n  {uentry}\n\n"
+                     "/-- ONE run of the loop body on the non-empty rest `r` of the source (`src < srcEnd`): (bytes appended, new rest) -/\n"
+                     f"def unescapeString_body (r : Bytes) : Bytes × Bytes :=\n  {ubody}\n")
         for fn, sig, lead in (("skipSpace", r"void\s+Xml::Private::skipSpace\(\)", None),
                               ("readToken", r"bool\s+Xml::Private::readToken\(\)", "skipSpace"),
                               ("parseText", r"bool\s+Xml::Private::parseText\(String&\s*text\)", None)):
